@@ -73,7 +73,7 @@ func generate(w *mon.W) {
 		case 10:
 			p = manyConditions(rng, 1+j%20)
 		case 12:
-			p = pairedConditions(rng, j%6)
+			p = pairedConditions(rng, j%9)
 		case 14:
 			p = oneSidedConditions(rng, j%30)
 		case 16:
@@ -113,7 +113,7 @@ func DirectedPipelines(seed int64, n int) []*Pipe {
 		case 4:
 			out = append(out, manyConditions(rng, 1+j%20))
 		case 5:
-			out = append(out, pairedConditions(rng, j%6))
+			out = append(out, pairedConditions(rng, j%9))
 		case 6:
 			out = append(out, oneSidedConditions(rng, j%30))
 		case 7:
@@ -340,6 +340,12 @@ func pairedConditions(rng interface{ Intn(int) int }, form int) *Pipe {
 		conds = []*E{Bin("==", l("k"), r("j")), Bin("==", r("j"), l("k"))}
 	case 4:
 		conds = []*E{Name("k"), Bin("==", l("k"), r("k")), Name("j")}
+	case 6:
+		conds = []*E{Name("k"), Name("j"), Name("Null")}
+	case 7:
+		conds = []*E{Name("Null"), Name("k"), Name("j"), Name("k")}
+	case 8:
+		conds = []*E{Bin("==", l("k"), r("k")), Name("j"), Name("Null")}
 	default:
 		conds = []*E{Bin("==", r("k"), l("j")), Bin("==", r("j"), l("k"))}
 	}
